@@ -152,4 +152,13 @@ example :
     @bestQualityEligible Int fixScalar exLinks 5000 = some 2 := by
   decide +kernel
 
+/-! ## Shell level
+
+The shell-level theorems of C04 — `C04_hk_uplink_emit_only_control`, `C04_enqueue_on_ineligible_is_probe`,
+`C04_registering_gets_nothing`, `C04_pre_registration_not_timed_out`, `C04_registration_status_step`,
+`C04_registered_iff_reg3_since_teardown`, `C04_history_vocabulary`, `C04_registering_not_connected_run` —
+are in `Lemmas/RunLevelC04.lean` (same namespace `Srtla.Props.C04`): they need `Lemmas/Forward*.lean`, which
+import THIS file, so they cannot be stated here.  `tools/props/C04.json` lists that module under
+`extra_lean_modules` / `extra_theorems`, so `./check C04` builds and audits them. -/
+
 end Srtla.Props.C04
